@@ -19,8 +19,9 @@
    os.Readlink + os.Symlink / copyDevice      in copy_rec
    copier.copyFileInfo / copyFileTimestamp copy_file_info / copy_file_timestamp
    copyXAttrs                                 copy_xattrs
-   Not modelled (stated in props/C14.json): include / exclude patterns (hence createParentDirs is a
-   no-op: every parentDir is already copied), ModeStr, XAttrErrorHandler, ChangeFunc, context
+   copier.include / exclude, parentDirs,      selector, s_parents, create_parent_dirs (in the repaired
+     createParentDirs                         order: parents are created BEFORE removeTargetIfNeeded)
+   Not modelled (stated in props/C14.json): ModeStr, XAttrErrorHandler, ChangeFunc, context
    cancellation; wildcard expansion is an INPUT (the list of matches), so theorems hold for every
    list of sources.
 
@@ -45,6 +46,7 @@ Record copts := {
 Record cst := {
   s_fs : fs;
   s_links : list (N * bytes);  (* copier.inodes: source inode -> first target path *)
+  s_parents : list (bytes * bytes * bool);   (* copier.parentDirs: (srcPath, dstPath, copied), outermost first *)
   s_reads : list N             (* inodes read through source paths, latest first *)
 }.
 
@@ -62,18 +64,21 @@ Notation "m ;;; k" := (bind m (fun _ => k)) (at level 61, right associativity).
 (* a syscall on the current file system *)
 Definition sys (op : fs -> fs * result) : M result :=
   fun s => let (f', r) := op (s_fs s) in
-           ({| s_fs := f'; s_links := s_links s; s_reads := s_reads s |}, inl r).
+           ({| s_fs := f'; s_links := s_links s; s_parents := s_parents s; s_reads := s_reads s |}, inl r).
 Definition log_read (i : N) : M unit :=
-  fun s => ({| s_fs := s_fs s; s_links := s_links s; s_reads := i :: s_reads s |}, inl tt).
+  fun s => ({| s_fs := s_fs s; s_links := s_links s; s_parents := s_parents s; s_reads := i :: s_reads s |}, inl tt).
 Definition get_fs : M fs := fun s => (s, inl (s_fs s)).
 Definition get_links : M (list (N * bytes)) := fun s => (s, inl (s_links s)).
 Definition add_link (i : N) (p : bytes) : M unit :=
-  fun s => ({| s_fs := s_fs s; s_links := (i, p) :: s_links s; s_reads := s_reads s |}, inl tt).
+  fun s => ({| s_fs := s_fs s; s_links := (i, p) :: s_links s; s_parents := s_parents s; s_reads := s_reads s |}, inl tt).
 (* forgetLinkSources(path): drop the recorded first copies at or below path *)
 Definition forget_path (path p : bytes) : bool := bytes_eqb p path || has_prefix (path ++ [sep]) p.
 Definition forget_links (path : bytes) : M unit :=
   fun s => ({| s_fs := s_fs s; s_links := filter (fun e => negb (forget_path path (snd e))) (s_links s);
-               s_reads := s_reads s |}, inl tt).
+               s_parents := s_parents s; s_reads := s_reads s |}, inl tt).
+Definition get_parents : M (list (bytes * bytes * bool)) := fun s => (s, inl (s_parents s)).
+Definition set_parents (l : list (bytes * bytes * bool)) : M unit :=
+  fun s => ({| s_fs := s_fs s; s_links := s_links s; s_parents := l; s_reads := s_reads s |}, inl tt).
 
 (* error classes (diagnostic only; the correspondence compares "error or not") *)
 Definition E_SYS : N := 1.        (* a syscall failed *)
@@ -359,16 +364,57 @@ Fixpoint each_m (g : bytes -> M unit) (ns : list bytes) : M unit :=
 Definition finish_meta (c : ctx) (o : copts) (fi : inode) (src target : bytes) : M unit :=
   copy_file_info c o fi target ;;; copy_xattrs c target src.
 
-(* the target Lstat, removeTargetIfNeeded, forgetLinkSources + ensureEmptyFileTarget *)
-Definition prep_target (c : ctx) (o : copts) (target : bytes) (fi : inode) : M (option (N * inode)) :=
-  tfi <~ lstat_opt_nd c target ;;
+(* removeTargetIfNeeded, forgetLinkSources + ensureEmptyFileTarget (for a selected entry, after
+   createParentDirs) *)
+Definition prep_rest (c : ctx) (o : copts) (target : bytes) (fi : inode) (tfi : option (N * inode)) : M unit :=
   remove_target_if_needed c o target fi tfi ;;;
   (if kind_is_dir fi then ret tt
    else (match tfi with Some _ => forget_links target | None => ret tt end) ;;;
-        ensure_empty_file_target c target) ;;;
-  ret tfi.
+        ensure_empty_file_target c target).
 
-Fixpoint copy_rec (fuel : nat) (c : ctx) (o : copts) (src target : bytes) (overwrite : bool) : M unit :=
+(* include / exclude: copier.include, copier.exclude = MatchesUsingParentResults with the parent
+   directory's MatchInfo.  The matcher is a parameter: theorems hold for every selector; the
+   correspondence instantiates it with Model/Pattern.incr_eval over the real single-pattern results. *)
+Record selector := {
+  sl_inc : bytes -> list bool -> bool * list bool;    (* nil matcher: (true, []) *)
+  sl_exc : bytes -> list bool -> bool * list bool     (* nil matcher: (false, []) *)
+}.
+Definition sel_all : selector := {| sl_inc := fun _ _ => (true, []); sl_exc := fun _ _ => (false, []) |}.
+
+(* createParentDirs: every parent directory not yet copied, outermost first: os.Stat(srcPath),
+   copyDirectoryOnly(dstPath), and copyFileInfo + copyXAttrs when it was created *)
+Fixpoint create_parents_go (c : ctx) (o : copts) (overwrite : bool) (todo done : list (bytes * bytes * bool))
+  : M (list (bytes * bytes * bool)) :=
+  match todo with
+  | [] => ret done
+  | (sp, dp, copied) :: rest =>
+    if copied then create_parents_go c o overwrite rest (done ++ [(sp, dp, copied)])
+    else
+      r <~ sys (fun f => sys_stat c f sp) ;;
+      match r with
+      | RStat si sfi =>
+        log_read si ;;;
+        if negb (kind_is_dir sfi) then fail E_NOTDIR
+        else
+          created <~ copy_directory_only c dp sfi overwrite ;;
+          (if created then copy_file_info c o sfi dp ;;; copy_xattrs c dp sp else ret tt) ;;;
+          create_parents_go c o overwrite rest (done ++ [(sp, dp, true)])
+      | _ => fail E_SYS
+      end
+  end.
+Definition create_parent_dirs (c : ctx) (o : copts) (overwrite : bool) : M unit :=
+  ps <~ get_parents ;;
+  ps' <~ create_parents_go c o overwrite ps [] ;;
+  set_parents ps'.
+
+Definition push_parent (sp dp : bytes) (copied : bool) : M unit :=
+  ps <~ get_parents ;; set_parents (ps ++ [(sp, dp, copied)]).
+Definition pop_parent : M unit := ps <~ get_parents ;; set_parents (removelast ps).
+
+(* copier.copy.  [comps] = srcComponents ("" for the top-level source: always selected);
+   [pinc] / [pexc] = the parent's MatchInfo *)
+Fixpoint copy_rec (fuel : nat) (c : ctx) (o : copts) (sl : selector) (src comps target : bytes)
+  (overwrite : bool) (pinc pexc : list bool) : M unit :=
   match fuel with
   | O => fail E_FUEL
   | S k =>
@@ -376,38 +422,65 @@ Fixpoint copy_rec (fuel : nat) (c : ctx) (o : copts) (src target : bytes) (overw
     match r with
     | RStat ino fi =>
       log_read ino ;;;
-      tfi <~ prep_target c o target fi ;;
-      match i_kind fi with
-      | KDir _ _ =>
-        created <~ copy_directory_only c target fi overwrite ;;
-        l <~ sys (fun f => sys_readdir c f src) ;;
-        match l with
-        | RNames names =>
-          f1 <~ get_fs ;;
-          (match resolve_ino c f1 src true with inl di => log_read di | inr _ => ret tt end) ;;;
-          each_m (fun n => copy_rec k c o (join2 src n) (join2 target n) true) (sorted_names names) ;;;
-          (if overwrite || created then finish_meta c o fi src target
-           else match tfi with
-                | Some _ => copy_file_timestamp c o fi target
-                | None => ret tt
-                end)
-        | _ => fail E_SYS
-        end
-      | KFile _ =>
-        copy_regular c src target ino ;;;
-        finish_meta c o fi src target
-      | KLink _ =>
-        l <~ sys (fun f => sys_readlink c f src) ;;
-        match l with
-        | RBytes t =>
-          r2 <~ sys (fun f => sys_symlink c f t target) ;; expect_ok r2 ;;;
+      tfi <~ lstat_opt_nd c target ;;
+      let ri := if is_nil comps then (true, []) else sl_inc sl comps pinc in
+      let re := if is_nil comps then (false, []) else sl_exc sl comps pexc in
+      let include := fst ri && negb (fst re) in
+      let children (names : list bytes) : M unit :=
+        each_m (fun n => copy_rec k c o sl (join2 src n) (join2 comps n) (join2 target n) true (snd ri) (snd re))
+               (sorted_names names) in
+      if include then
+        create_parent_dirs c o overwrite ;;;
+        prep_rest c o target fi tfi ;;;
+        match i_kind fi with
+        | KDir _ _ =>
+          created <~ copy_directory_only c target fi overwrite ;;
+          push_parent src target true ;;;
+          l <~ sys (fun f => sys_readdir c f src) ;;
+          match l with
+          | RNames names =>
+            f1 <~ get_fs ;;
+            (match resolve_ino c f1 src true with inl di => log_read di | inr _ => ret tt end) ;;;
+            children names ;;;
+            pop_parent ;;;
+            (if overwrite || created then finish_meta c o fi src target
+             else match tfi with
+                  | Some _ => copy_file_timestamp c o fi target
+                  | None => ret tt
+                  end)
+          | _ => fail E_SYS
+          end
+        | KFile _ =>
+          copy_regular c src target ino ;;;
           finish_meta c o fi src target
-        | _ => fail E_SYS
+        | KLink _ =>
+          l <~ sys (fun f => sys_readlink c f src) ;;
+          match l with
+          | RBytes t =>
+            r2 <~ sys (fun f => sys_symlink c f t target) ;; expect_ok r2 ;;;
+            finish_meta c o fi src target
+          | _ => fail E_SYS
+          end
+        | KSpecial _ _ =>
+          copy_device c target fi ;;;
+          finish_meta c o fi src target
         end
-      | KSpecial _ _ =>
-        copy_device c target fi ;;;
-        finish_meta c o fi src target
-      end
+      else
+        (* not selected: a directory is still walked, its creation deferred *)
+        match i_kind fi with
+        | KDir _ _ =>
+          push_parent src target false ;;;
+          l <~ sys (fun f => sys_readdir c f src) ;;
+          match l with
+          | RNames names =>
+            f1 <~ get_fs ;;
+            (match resolve_ino c f1 src true with inl di => log_read di | inr _ => ret tt end) ;;;
+            children names ;;;
+            pop_parent
+          | _ => fail E_SYS
+          end
+        | _ => ret tt
+        end
     | _ => fail E_SYS
     end
   end.
@@ -437,7 +510,7 @@ Definition lift_rp (r : bytes + rp_err) : M bytes :=
 (* ---- Copy ---- *)
 (* the loop over the sources; the created-directory batches are collected for the deferred
    fixCreatedParentDirs, which run (latest first) on every way out *)
-Fixpoint copy_sources (fuel : nat) (c : ctx) (o : copts) (src_root dst_root dst : bytes)
+Fixpoint copy_sources (fuel : nat) (c : ctx) (o : copts) (sl : selector) (src_root dst_root dst : bytes)
   (srcs : list bytes) (batches : list (list bytes)) : cst -> cst * (unit + N) * list (list bytes) :=
   fun s =>
   match srcs with
@@ -453,9 +526,9 @@ Fixpoint copy_sources (fuel : nat) (c : ctx) (o : copts) (src_root dst_root dst 
     match step s with
     | (s1, inr e) => (s1, inr e, batches)
     | (s1, inl (sf, d1, created)) =>
-      match copy_rec fuel c o sf d1 false s1 with
+      match copy_rec fuel c o sl sf [] d1 false [] [] s1 with
       | (s2, inr e) => (s2, inr e, created :: batches)
-      | (s2, inl _) => copy_sources fuel c o src_root dst_root dst rest (created :: batches) s2
+      | (s2, inl _) => copy_sources fuel c o sl src_root dst_root dst rest (created :: batches) s2
       end
     end
   end.
@@ -467,7 +540,7 @@ Fixpoint run_fixes (c : ctx) (root : bytes) (tm : option N) (batches : list (lis
   end.
 
 (* [matches]: None = no wildcards (the source is [src]); Some l = AllowWildcards with the matches l *)
-Definition copy_top (fuel : nat) (c : ctx) (o : copts) (src_root src dst_root dst : bytes)
+Definition copy_top (fuel : nat) (c : ctx) (o : copts) (osl : option selector) (src_root src dst_root dst : bytes)
   (matches : option (list bytes)) : cst -> cst * (unit + N) :=
   fun s =>
   let ensure := match split_path dst with
@@ -485,11 +558,12 @@ Definition copy_top (fuel : nat) (c : ctx) (o : copts) (src_root src dst_root ds
   | (s1, inl batches0) =>
     let srcs := match matches with None => [src] | Some l => l end in
     let '(s2, res, batches) :=
-      match matches with
-      | Some [] => (s1, inr E_NOMATCH, batches0)
-      | _ => copy_sources fuel c o src_root dst_root dst srcs batches0 s1
+      match osl, matches with
+      | None, _ => (s1, inr E_SYS, batches0)          (* newCopier: invalid include / exclude patterns *)
+      | _, Some [] => (s1, inr E_NOMATCH, batches0)
+      | Some sl, _ => copy_sources fuel c o sl src_root dst_root dst srcs batches0 s1
       end in
     (fst (run_fixes c dst_root (o_utime o) batches s2), res)
   end.
 
-Definition cst_init (f : fs) : cst := {| s_fs := f; s_links := []; s_reads := [] |}.
+Definition cst_init (f : fs) : cst := {| s_fs := f; s_links := []; s_parents := []; s_reads := [] |}.
